@@ -3,6 +3,7 @@ package node
 import (
 	"bytes"
 	"context"
+	"crypto/sha256"
 	"encoding/binary"
 	"fmt"
 	"sort"
@@ -100,18 +101,44 @@ func EqualGenesis(n int) NextParams {
 	return p
 }
 
-// ValidatorsHashOf computes the validators hash of a parameter set independently of the BFT module.
+// ValidatorsHashOf computes the validators hash of a parameter set from its LIP-0058 definition, with its own encoder (oracle audit,
+// finding 2: it used to call the engine's ComputeValidatorsHash, so a hash that ignored a weight, the threshold or the key order
+// would have been mirrored): SHA-256 of the Lisk-codec message {1: repeated {1: bytes blsKey, 2: uint64 bftWeight} sorted by
+// blsKey, 2: uint64 certificateThreshold}.
 func ValidatorsHashOf(p *NextParams) []byte {
 	keys := Keys()
-	var hv []validator.HashValidator
+	type hv struct {
+		bls []byte
+		w   uint64
+	}
+	var vs []hv
 	for i, ix := range p.Idx {
-		hv = append(hv, validator.NewHashValidator(keys[ix].BLSPub, p.Weights[i]))
+		vs = append(vs, hv{keys[ix].BLSPub, p.Weights[i]})
 	}
-	h, err := validator.ComputeValidatorsHash(hv, p.Cert)
-	if err != nil {
-		panic(err)
+	sort.Slice(vs, func(i, j int) bool { return bytes.Compare(vs[i].bls, vs[j].bls) < 0 })
+	uv := func(b []byte, x uint64) []byte {
+		for x >= 0x80 {
+			b = append(b, byte(x)|0x80)
+			x >>= 7
+		}
+		return append(b, byte(x))
 	}
-	return h
+	var out []byte
+	for _, v := range vs {
+		var in []byte
+		in = append(in, 0x0a)
+		in = uv(in, uint64(len(v.bls)))
+		in = append(in, v.bls...)
+		in = append(in, 0x10)
+		in = uv(in, v.w)
+		out = append(out, 0x0a)
+		out = uv(out, uint64(len(in)))
+		out = append(out, in...)
+	}
+	out = append(out, 0x10)
+	out = uv(out, p.Cert)
+	h := sha256.Sum256(out)
+	return h[:]
 }
 
 // GenesisBlock builds the genesis block for a config.
